@@ -10,7 +10,17 @@ GOROOT_V=/opt/veriftools/go1.26.8
 REPO=${VERIF_REPO:-/repo}
 VERIF=${VERIF_DIR:-/verif}
 mkdir -p "$WORK/ov" || exit 2
-REPL=$(python3 "$VERIF/rt/patch_runtime.py" "$GOROOT_V" "$WORK/ov") || { echo "HARNESS-ERROR: runtime overlay generation failed" >&2; exit 2; }
+# arr.ai's hash keys (crypto/rand at init) go behind the process-level seed too: a private,
+# patched copy of the module, wired in with a replace line (ordersim only)
+HASHCOPY=""
+if [ "$ENGINE" = ordersim ]; then
+  HASHDIR=$(cd "$REPO" && $GO list -m -f '{{.Dir}}' github.com/arr-ai/hash 2>/dev/null)
+  if [ -n "$HASHDIR" ] && [ -d "$HASHDIR" ]; then
+    HASHCOPY="$WORK/arrai-hash"
+    rm -rf "$HASHCOPY"; cp -r "$HASHDIR" "$HASHCOPY" && chmod -R u+w "$HASHCOPY" || exit 2
+  fi
+fi
+REPL=$(python3 "$VERIF/rt/patch_runtime.py" "$GOROOT_V" "$WORK/ov" "$HASHCOPY") || { echo "HARNESS-ERROR: runtime overlay generation failed" >&2; exit 2; }
 
 if [ "$ENGINE" = ordersim ]; then
   # CLI driver: a _test.go file injected into /repo/cmd/sysl through the overlay;
@@ -27,7 +37,8 @@ if [ "$ENGINE" = ordersim ]; then
     INJ="$INJ,\"$t\":\"$f\""
   done
   echo "{\"Replace\":{${REPL:1:${#REPL}-2}$INJ$HIDE}}" > "$WORK/ov.json"
-  { cat "$REPO/go.mod"; echo; echo "require verif/sim v0.0.0"; echo "replace verif/sim => $VERIF/sim"; } > "$WORK/go.mod"
+  { cat "$REPO/go.mod"; echo; echo "require verif/sim v0.0.0"; echo "replace verif/sim => $VERIF/sim"
+    [ -n "$HASHCOPY" ] && echo "replace github.com/arr-ai/hash => $HASHCOPY"; } > "$WORK/go.mod"
   cp "$REPO/go.sum" "$WORK/go.sum"
   (cd "$REPO" && $GO test -c -vet=off $RACE -tags verif -modfile "$WORK/go.mod" -overlay "$WORK/ov.json" -o "$WORK/$ENGINE.test" ./cmd/sysl) >&2 || { echo "HARNESS-ERROR: build of $ENGINE failed" >&2; exit 2; }
 else
